@@ -239,6 +239,13 @@ func cmdCheck(args []string) int {
 			}
 			// replay
 			rp := writeReplay(vd, filepath.Dir(failDir), prop, fr, o, cfg, e)
+			if len(fr.Degraded) > 0 && !rp.Reproduced {
+				// the contract no longer matches the code structure: without a reproduced failure this is undecided, not a violation
+				undecided = append(undecided, fmt.Sprintf("%s/%s not proved, but %s (no failing input reproduced: %s)", fr.Key, o.Name, fr.Degraded[0], rp.Path))
+				r.Verdict = "undecided(structural mismatch)"
+				reports = append(reports, r)
+				continue
+			}
 			violations++
 			if rp.Reproduced {
 				lines = append(lines, fmt.Sprintf("VIOLATION property=%s replay=%s obligation=%s/%s failing-input-replayed", prop, rp.Path, fr.Key, o.Name))
